@@ -163,3 +163,50 @@ R.contract(
     },
     replayable=False,
 )
+
+
+# ------------------------------------------------------------------------------------------------- stateful settings: only values the user left at Hypothesis' defaults are replaced by the state-machine defaults
+SEX12 = "schemathesis.engine.phases.stateful._executor:"
+from pyvc.values import VObj as _VObj12  # noqa: E402
+
+
+def _hyp_default(it, a, k):
+    d = _VObj12(it.resolve_class("spec:HypothesisSettings"), {"phases": fresh_opaque(it, "Phases"), "stateful_step_count": 50, "deadline": 200, "suppress_health_check": fresh_opaque(it, "HealthChecks")})
+    it.ghost["hypothesis_default"] = d
+    return d
+
+
+R.extern["hypothesis.settings"] = _hyp_default
+_SM_DEFAULTS = Obj("spec:HypothesisSettings", phases=Opq("Phases"), stateful_step_count=Const(6), deadline=NoneT, suppress_health_check=Opq("HealthChecks"))
+
+
+def _settings_setup(it):
+    from pyvc.verify import locate
+
+    _, _, fn = locate(it, SEX12 + "_get_hypothesis_settings_kwargs_override")
+    sm = _SM_DEFAULTS.make(it, "DEFAULT_STATE_MACHINE_SETTINGS")
+    it.reg.module_values[SEX12.rstrip(":") + ":DEFAULT_STATE_MACHINE_SETTINGS"] = sm
+    it.ghost["machine_defaults"] = sm
+    return fn, {}
+
+
+R.module_values[SEX12.rstrip(":") + ":DEFAULT_STATE_MACHINE_SETTINGS"] = None
+R.contract(
+    SEX12 + "_get_hypothesis_settings_kwargs_override",
+    prop="C12",
+    setup=_settings_setup,
+    args={"settings": Obj("spec:HypothesisSettings", phases=Opq("Phases"), stateful_step_count=IntRange(1, None), deadline=OneOf(NoneT, IntRange(1, None)), suppress_health_check=Opq("HealthChecks"))},
+    ghost={"hypothesis_default": None, "machine_defaults": None},
+    raises=[],
+    ensures={
+        # limits the user chose are honoured: a setting is replaced by the state-machine default ONLY when the user left it at Hypothesis' own default
+        "a_user_chosen_step_count_is_never_replaced": "iff('stateful_step_count' in result, settings.stateful_step_count == ghost('hypothesis_default').stateful_step_count) and "
+                                                      "implies('stateful_step_count' in result, result['stateful_step_count'] == ghost('machine_defaults').stateful_step_count)",
+        "a_user_chosen_deadline_is_never_replaced": "iff('deadline' in result, same_d(settings.deadline, ghost('hypothesis_default').deadline)) and implies('deadline' in result, result['deadline'] is None)",
+        "user_chosen_phases_and_health_checks_are_never_replaced": "iff('phases' in result, settings.phases == ghost('hypothesis_default').phases) and implies('phases' in result, result['phases'] is ghost('machine_defaults').phases) and "
+                                                                   "iff('suppress_health_check' in result, settings.suppress_health_check == ghost('hypothesis_default').suppress_health_check)",
+        "no_other_setting_is_touched": "all(k in ('phases', 'stateful_step_count', 'deadline', 'suppress_health_check') for k in result)",
+    },
+    replayable=False,
+)
+R.spec_funcs["same_d"] = lambda it, a, b: (a is None and b is None) if (a is None or b is None) else __import__("pyvc.ops", fromlist=["eq"]).eq(a, b)
